@@ -78,3 +78,23 @@ Proof.
   split; [unfold bytes, ex_c19_reads; repeat (constructor; [repeat (constructor; [reflexivity|]); constructor|]); constructor|].
   eexists. eexists. split; [vm_compute; reflexivity|]. split; reflexivity.
 Qed.
+
+(* a fuller session (built with the harness's frame builders, dialect JS, three reads cut inside a chunk header and
+   inside a chunk): a 0x1210 of terminal 13800138000 announcing "a.jpg" (4 bytes) and "../b" (2 bytes), the chunks
+   "WX"@0 of a.jpg, "!!"@0 of ../b (which completes that file), "YZ"@2 of a.jpg, and the 0x1212 for a.jpg.  What
+   is handed to os.WriteFile is evaluated: exactly ./13800138000/a.jpg with content WXYZ - the complete file whose
+   name would leave the directory is not written *)
+Definition ex_c19_reads2 : list (list N) :=
+  [[126; 18; 16; 0; 76; 1; 56; 0; 19; 128; 0; 0; 7; 84; 69; 82; 77; 73; 78; 65; 76; 45; 73; 68; 0; 0; 0; 0; 0; 0; 0; 0; 0; 0; 0; 0; 0; 0; 0; 0; 0; 0; 0; 0; 0; 0; 0; 0; 0; 0; 0; 0; 0; 0; 0; 0; 0; 0; 0; 0; 0; 0; 0; 0; 0; 0; 0; 0; 0; 2; 5; 97; 46; 106; 112; 103; 0; 0; 0; 4; 4; 46; 46; 47; 98; 0; 0; 0; 2; 189; 126; 48; 49; 99; 100; 97; 46; 106; 112; 103; 0];
+ [0; 0; 0; 0; 0; 0; 0; 0; 0; 0; 0; 0; 0; 0; 0; 0; 0; 0; 0; 0; 0; 0; 0; 0; 0; 0; 0; 0; 0; 0; 0; 0; 0; 0; 0; 0; 0; 0; 0; 0; 0; 0; 0; 0; 0; 0; 0; 0; 0; 0; 0; 2; 87; 88; 48; 49; 99; 100; 46; 46; 47; 98; 0; 0; 0; 0; 0; 0; 0; 0; 0; 0; 0; 0; 0; 0; 0; 0; 0; 0; 0; 0; 0; 0; 0; 0; 0; 0; 0; 0; 0; 0; 0; 0; 0; 0; 0; 0; 0; 0; 0; 0; 0; 0; 0; 0; 0; 0; 0; 0; 0; 0; 0; 0; 0; 2; 33; 33; 48; 49; 99];
+ [100; 97; 46; 106; 112; 103; 0; 0; 0; 0; 0; 0; 0; 0; 0; 0; 0; 0; 0; 0; 0; 0; 0; 0; 0; 0; 0; 0; 0; 0; 0; 0; 0; 0; 0; 0; 0; 0; 0; 0; 0; 0; 0; 0; 0; 0; 0; 0; 0; 0; 0; 0; 0; 0; 2; 0; 0; 0; 2; 89; 90; 126; 18; 18; 0; 11; 1; 56; 0; 19; 128; 0; 0; 8; 5; 97; 46; 106; 112; 103; 0; 0; 0; 0; 4; 154; 126]].
+Example C19_run_example2 : Forall bytes ex_c19_reads2 /\
+  on_quit_saves (snd (run 1 ex_c19_reads2)) =
+    Some ([49;51;56;48;48;49;51;56;48;48;48],
+          [([46; 47; 49; 51; 56; 48; 48; 49; 51; 56; 48; 48; 48; 47; 97; 46; 106; 112; 103], [87; 88; 89; 90])]).
+Proof.
+  split; [|vm_compute; reflexivity].
+  assert (H : forallb (forallb (fun b => b <? 256)) ex_c19_reads2 = true) by (vm_compute; reflexivity).
+  apply Forall_forall. intros r Hr. apply Forall_forall. intros b Hb.
+  rewrite forallb_forall in H. specialize (H r Hr). rewrite forallb_forall in H. apply N.ltb_lt. exact (H b Hb).
+Qed.
